@@ -38,8 +38,10 @@ TRUSTED_BASE = BASE_TRUSTED + [
 ]
 RULE = ('seeded lenses of 1-12 planes/spheres/conics (catalogue and ideal media, mirrors, radial apertures, coatings, finite and '
         'infinite objects, EPD/imageFNO/objectNA, angle/height fields); relations: mirror x / y / both (fields along y and x, '
-        'random pupil points), tilt of a spherical surface about its centre of curvature |a| <= 0.3 rad about x or y, dummy plane '
-        'at a random position of every kind of gap, wavelength change of an all-ideal lens, scale factors 10^u, u in [-2,2] '
+        'random pupil points; every second lens has fields carrying vignetting factors vx/vy and gets all three mirrors incl. an '
+        'off-axis field of either sign with an off-axis pupil point), tilt of a spherical surface about its centre of curvature |a| <= 0.3 rad about x or y, dummy plane '
+        'at a random interior split of a random gap for every ray and at the two contact splits f = 0 / f = 1 (zero thickness) of '
+        'EVERY gap from behind surface 1 to the image for one ray per lens, wavelength change of an all-ideal lens, scale factors 10^u, u in [-2,2] '
         '(half of them powers of two) by an independently built scaled lens and by Optic.scale_system (planes/conics, angular '
         'fields, with and without decentres); non-trivial = relation evaluated on a ray that reaches the image with finite data')
 PARTIAL = [
